@@ -64,7 +64,7 @@ pub fn parse_src(e: &Expr) -> Option<Src> {
                                 let base = &ix.expr;
                                 return Some(Src::Skip(Box::new(Src::Iter((**base).clone())), parse_quote!(slice_from_check(#a, #base.len()))));
                             }
-                            return None;
+                            // any other range form is left as it is (the verifier's own slice-range indexing applies)
                         }
                     }
                     Some(Src::Iter((*mc.receiver).clone()))
